@@ -5,6 +5,17 @@ ROOT = os.path.dirname(os.path.dirname(os.path.abspath(__file__)))
 def rd(n):
     p = os.path.join(ROOT, "docs_src", n)
     return open(p).read() if os.path.exists(p) else f"(not generated yet: {n})\n"
-txt = rd("part1.md") + rd("part2.md").replace("@@FIXES@@", rd("docs_fixes.md")) + rd("part3.md").replace("@@LEMMAS@@", rd("docs_lemmas.md")).replace("@@SEEDS@@", rd("docs_seeds.md"))
+import glob, json
+THOROUGH = os.path.join(ROOT, "docs_src", "thorough_walls.json")   # {"C01": [exit, wall_s], ...} recorded from the thorough runs
+def cost():
+    th = json.load(open(THOROUGH)) if os.path.exists(THOROUGH) else {}
+    rows = ["  | property | quick: lemma tasks / paths / solver queries (solver time) / wall | thorough: exit / wall |", "  |---|---|---|"]
+    for f in sorted(glob.glob(os.path.join(ROOT, "evidence", "C*.json"))):
+        e = json.load(open(f)); c = e["coverage"]; pid = e["property_id"]
+        t = th.get(pid)
+        q = c.get("queries", {})
+        rows.append(f"  | {pid} | {len(c.get('lemmas', []))} / {c.get('states', '?')} / {sum(q.values()) if isinstance(q, dict) else q} ({c.get('solver_time_s', '?')} s) / {e['wall_s']:.0f} s | " + (f"{t[0]} / {t[1]} s" if t else "not measured on the final tree") + " |")
+    return "\n".join(rows) + "\n"
+txt = rd("part1.md") + rd("part2.md").replace("@@FIXES@@", rd("docs_fixes.md")) + rd("part3.md").replace("@@LEMMAS@@", rd("docs_lemmas.md")).replace("@@SEEDS@@", rd("docs_seeds.md")).replace("@@COST@@", cost())
 open(os.path.join(ROOT, "DESIGN.md"), "w").write(txt)
 print(len(txt.splitlines()), "lines")
